@@ -1725,4 +1725,197 @@ theorem toEntry_ok {env : Env} {q : Entry → Bool} (hq : LocalOK env q) (fuel :
     rw [toEntry_succ]
     exact ⟨this.1, this.2, toEntryBody_shape _ _ _ _ _ _ _ _⟩
 
+/-! ### the local predicates of the specification have the closure properties -/
+
+theorem LocalBase.and {env : Env} {q1 q2 : Entry → Bool} (h1 : LocalBase env q1) (h2 : LocalBase env q2) :
+    LocalBase env (fun e => q1 e && q2 e) where
+  hdr d c i o c' i' o' hc hi ho := by
+    show (q1 _ && q2 _) = (q1 _ && q2 _)
+    rw [h1.hdr d c i o c' i' o' hc hi ho, h2.hdr d c i o c' i' o' hc hi ho]
+  leaf root scope n syn he := by
+    simp only [Bool.and_eq_true]; exact ⟨h1.leaf _ _ _ _ he, h2.leaf _ _ _ _ he⟩
+  leafList d la xs dl hk hd h := by
+    simp only [Bool.and_eq_true] at h ⊢; exact ⟨h1.leafList _ _ _ _ hk hd h.1, h2.leafList _ _ _ _ hk hd h.2⟩
+  base d a b c e := by
+    simp only [Bool.and_eq_true]; exact ⟨h1.base d a b c e, h2.base d a b c e⟩
+  neutral d d' c i o hn h := by
+    simp only [Bool.and_eq_true] at h ⊢; exact ⟨h1.neutral _ _ _ _ _ hn h.1, h2.neutral _ _ _ _ _ hn h.2⟩
+  rename d c i o nm h := by
+    simp only [Bool.and_eq_true] at h ⊢; exact ⟨h1.rename _ _ _ _ _ h.1, h2.rename _ _ _ _ _ h.2⟩
+  typeSet d c i o ty hk h := by
+    simp only [Bool.and_eq_true] at h ⊢; exact ⟨h1.typeSet _ _ _ _ _ hk h.1, h2.typeSet _ _ _ _ _ hk h.2⟩
+  laSet d d' c i o hk hl h := by
+    simp only [Bool.and_eq_true] at h ⊢; exact ⟨h1.laSet _ _ _ _ _ hk hl h.1, h2.laSet _ _ _ _ _ hk hl h.2⟩
+  append d c i o v h hx hk := by
+    simp only [Bool.and_eq_true] at h ⊢; exact ⟨h1.append _ _ _ _ _ h.1 hx hk, h2.append _ _ _ _ _ h.2 hx hk⟩
+  setInp d c o v h hk := by
+    simp only [Bool.and_eq_true] at h ⊢; exact ⟨h1.setInp _ _ _ _ h.1 hk, h2.setInp _ _ _ _ h.2 hk⟩
+  setOut d c i v h hk := by
+    simp only [Bool.and_eq_true] at h ⊢; exact ⟨h1.setOut _ _ _ _ h.1 hk, h2.setOut _ _ _ _ h.2 hk⟩
+
+theorem all_kind_hdr (p : Kind → Bool) (c c' : List Entry) (h : c.map hdr = c'.map hdr) :
+    c.all (fun x => p x.d.kind) = c'.all (fun x => p x.d.kind) := by
+  have : ∀ l : List Entry, l.all (fun x => p x.d.kind) = (l.map hdr).all (fun h => p h.2) := by
+    intro l; induction l with
+    | nil => rfl
+    | cons a l ih => simp [List.all_cons, ih, hdr]
+  rw [this c, this c', h]
+
+theorem names_hdr (c c' : List Entry) (h : c.map hdr = c'.map hdr) : c.map (·.name) = c'.map (·.name) := by
+  have : ∀ l : List Entry, l.map (·.name) = (l.map hdr).map (·.1) := by
+    intro l; simp [hdr, Entry.name]
+  rw [this c, this c', h]
+
+theorem length_hdr (c c' : List Entry) (h : c.map hdr = c'.map hdr) : c.length = c'.length := by
+  have := congrArg List.length h; simpa using this
+
+theorem ndHere_iff (d : EData) (c i o : List Entry) : ndHere (.mk d c i o) = true ↔
+    (∀ x ∈ c, x.d.kind ≠ .deviate) ∧ (∀ x ∈ i, x.d.kind ≠ .deviate) ∧ (∀ x ∈ o, x.d.kind ≠ .deviate) := by
+  simp [ndHere, Entry.dir, Entry.inp, Entry.out, and_assoc]
+
+theorem keysUniqueHere_iff (d : EData) (c i o : List Entry) : keysUniqueHere (.mk d c i o) = true ↔
+    (c.map (·.name)).Nodup ∧ i.length ≤ 1 ∧ o.length ≤ 1 := by
+  simp only [keysUniqueHere, Entry.dir, Entry.inp, Entry.out, Bool.and_eq_true, and_assoc]
+  constructor
+  · rintro ⟨h1, h2, h3⟩; exact ⟨of_decide_eq_true h1, of_decide_eq_true h2, of_decide_eq_true h3⟩
+  · rintro ⟨h1, h2, h3⟩; exact ⟨decide_eq_true h1, decide_eq_true h2, decide_eq_true h3⟩
+
+theorem localBase_ndHere (env : Env) : LocalBase env ndHere where
+  hdr d c i o c' i' o' hc hi ho := by
+    simp only [ndHere, Entry.dir, Entry.inp, Entry.out]
+    rw [all_kind_hdr (· != .deviate) c c' hc, all_kind_hdr (· != .deviate) i i' hi,
+      all_kind_hdr (· != .deviate) o o' ho]
+  leaf root scope n syn he := by
+    have := leafEntry_data env root scope n syn
+    simp [ndHere, this.2.2.2.2.2.1, this.2.2.2.2.2.2.1, this.2.2.2.2.2.2.2]
+  leafList d la xs dl hk hd h := by simp [ndHere, Entry.dir, Entry.inp, Entry.out]
+  base d a b c e := by simp [ndHere, Entry.dir, Entry.inp, Entry.out]
+  neutral d d' c i o hn h := h
+  rename d c i o nm h := h
+  typeSet d c i o ty hk h := h
+  laSet d d' c i o hk hl h := h
+  append d c i o v h hx hk := by
+    rw [ndHere_iff] at h ⊢
+    refine ⟨?_, h.2⟩
+    intro x hx'
+    rcases List.mem_append.mp hx' with hx' | hx'
+    · exact h.1 x hx'
+    · simp only [List.mem_singleton] at hx'; subst hx'; exact hk
+  setInp d c o v h hk := by
+    rw [ndHere_iff] at h ⊢
+    refine ⟨h.1, ?_, h.2.2⟩
+    intro x hx; simp only [List.mem_singleton] at hx; subst hx; rw [hk]; decide
+  setOut d c i v h hk := by
+    rw [ndHere_iff] at h ⊢
+    refine ⟨h.1, h.2.1, ?_⟩
+    intro x hx; simp only [List.mem_singleton] at hx; subst hx; rw [hk]; decide
+
+theorem localBase_keysUniqueHere (env : Env) : LocalBase env keysUniqueHere where
+  hdr d c i o c' i' o' hc hi ho := by
+    rw [Bool.eq_iff_iff, keysUniqueHere_iff, keysUniqueHere_iff, names_hdr c c' hc, length_hdr i i' hi,
+      length_hdr o o' ho]
+  leaf root scope n syn he := by
+    have := leafEntry_data env root scope n syn
+    simp [keysUniqueHere, this.2.2.2.2.2.1, this.2.2.2.2.2.2.1, this.2.2.2.2.2.2.2]
+  leafList d la xs dl hk hd h := by simp [keysUniqueHere, Entry.dir, Entry.inp, Entry.out]
+  base d a b c e := by simp [keysUniqueHere, Entry.dir, Entry.inp, Entry.out]
+  neutral d d' c i o hn h := h
+  rename d c i o nm h := h
+  typeSet d c i o ty hk h := h
+  laSet d d' c i o hk hl h := h
+  append d c i o v h hx hk := by
+    rw [keysUniqueHere_iff] at h ⊢
+    refine ⟨?_, h.2⟩
+    simp only [List.map_append, List.map_cons, List.map_nil]
+    rw [List.nodup_append]
+    refine ⟨h.1, by simp, ?_⟩
+    intro a ha b hb
+    simp only [List.mem_singleton] at hb; subst hb
+    simp only [List.mem_map] at ha
+    obtain ⟨x, hx', rfl⟩ := ha
+    exact hx x hx'
+  setInp d c o v h hk := by
+    rw [keysUniqueHere_iff] at h ⊢
+    exact ⟨h.1, by simp, h.2.2⟩
+  setOut d c i v h hk := by
+    rw [keysUniqueHere_iff] at h ⊢
+    exact ⟨h.1, h.2.1, by simp⟩
+
+
+/-- The kind / child-map / list-attribute condition, allowing deviate entries to carry list
+attributes (they never enter a schema tree: `ndHere`). -/
+def kindsWeakHere (e : Entry) : Bool :=
+  ((e.d.kind == .leaf) == !e.d.hasDir) &&
+  (!e.d.listAttr.isSome || e.d.kind == .leaf || e.d.kind == .directory || e.d.kind == .deviate)
+
+theorem localBase_kindsWeakHere (env : Env) : LocalBase env kindsWeakHere where
+  hdr d c i o c' i' o' hc hi ho := rfl
+  leaf root scope n syn he := by
+    have := leafEntry_data env root scope n syn
+    simp [kindsWeakHere, this.2.1, this.2.2.1, this.2.2.2.2.1]
+  leafList d la xs dl hk hd h := by simp [kindsWeakHere, Entry.d, hk, hd]
+  base d a b c e := by
+    simp only [kindsWeakHere, Entry.d, a, Bool.not_true]
+    have h1 : (d.kind == Kind.leaf) = false := by simpa using b
+    rw [h1]
+    cases hl : d.listAttr.isSome with
+    | false => simp
+    | true => simp [c hl]
+  neutral d d' c i o hn h := by
+    obtain ⟨_, h2, h3, _, h5, _⟩ := hn
+    simp only [kindsWeakHere, Entry.d, h2, h3, h5] at h ⊢; exact h
+  rename d c i o nm h := h
+  typeSet d c i o ty hk h := h
+  laSet d d' c i o hk hl h := by
+    obtain ⟨_, h2, h3, _, _⟩ := hl
+    simp only [kindsWeakHere, Entry.d, h2, h3, hk] at h ⊢
+    simp only [Bool.and_eq_true] at h ⊢
+    exact ⟨h.1, by simp⟩
+  append d c i o v h hx hk := h
+  setInp d c o v h hk := h
+  setOut d c i v h hk := h
+
+theorem localBase_typePresentHere (env : Env) (ht : TypeResTotal env.tres) : LocalBase env typePresentHere where
+  hdr d c i o c' i' o' hc hi ho := rfl
+  leaf root scope n syn he := by
+    unfold leafEntry at he ⊢
+    simp only [typePresentHere, Entry.d] at he ⊢
+    cases hty : n.one? "type" with
+    | none => simp
+    | some t =>
+      simp only [hty] at he ⊢
+      have : (env.tres.resolve env.reg root (n :: scope) t).2 = [] := by
+        simp only [List.append_eq_nil_iff] at he; exact he.1.1
+      simp [ht _ _ _ _ this]
+  leafList d la xs dl hk hd h := h
+  base d a b c e := by
+    have h1 : (d.kind == Kind.leaf) = false := by simpa using b
+    simp [typePresentHere, Entry.d, h1]
+  neutral d d' c i o hn h := by
+    obtain ⟨_, h2, _, h4, _, h6⟩ := hn
+    simp only [typePresentHere, Entry.d, h2, h4, h6] at h ⊢; exact h
+  rename d c i o nm h := h
+  typeSet d c i o ty hk h := by
+    have h1 : (d.kind == Kind.leaf) = false := by simpa using hk
+    simp [typePresentHere, Entry.d, h1]
+  laSet d d' c i o hk hl h := by
+    obtain ⟨_, h2, _, _, _⟩ := hl
+    simp [typePresentHere, Entry.d, h2, hk]
+  append d c i o v h hx hk := h
+  setInp d c o v h hk := h
+  setOut d c i v h hk := h
+
+/-- Everything the entry layer establishes, as one local predicate. -/
+def wfq (e : Entry) : Bool := (keysUniqueHere e && kindsWeakHere e) && ndHere e
+
+theorem localOK_wfq (env : Env) : LocalOK env wfq where
+  toLocalBase := ((localBase_keysUniqueHere env).and (localBase_kindsWeakHere env)).and (localBase_ndHere env)
+  nd e h := by simp only [wfq, Bool.and_eq_true] at h; exact h.2
+
+def wfqT (e : Entry) : Bool := wfq e && typePresentHere e
+
+theorem localOK_wfqT (env : Env) (ht : TypeResTotal env.tres) : LocalOK env wfqT where
+  toLocalBase := (localOK_wfq env).toLocalBase.and (localBase_typePresentHere env ht)
+  nd e h := by simp only [wfqT, Bool.and_eq_true] at h; exact (localOK_wfq env).nd e h.1
+
 end Goyang.Lemmas.Tree
